@@ -144,6 +144,7 @@ func SessionCase(ids []ID) *Case {
 			if err != nil {
 				return nil, err
 			}
+			net.Root(id, r)
 			return r.Run(ctx, rt, nil)
 		})
 		return classify(res, info, func(id ID, c *session.Context) (string, string) {
@@ -162,6 +163,7 @@ func AorCase(ids []ID) *Case {
 			if err != nil {
 				return nil, err
 			}
+			net.Root(id, r)
 			return r.Run(ctx, rt, nil)
 		})
 		return classify(res, info, func(id ID, o []byte) (string, string) {
@@ -182,6 +184,7 @@ func GennaroCase(name string, ac accessstructures.Monotone, ids []ID) *Case {
 			if err != nil {
 				return nil, err
 			}
+			net.Root(id, r)
 			return r.Run(ctx, rt, nil)
 		})
 		return classify(res, info, func(id ID, sh *K256Shard) (string, string) { return shardGood(sh) })
@@ -197,6 +200,7 @@ func CanettiCase(name string, ac accessstructures.Monotone, ids []ID) *Case {
 			if err != nil {
 				return nil, err
 			}
+			net.Root(id, r)
 			return r.Run(ctx, rt, nil)
 		})
 		return classify(res, info, func(id ID, sh *K256Shard) (string, string) { return shardGood(sh) })
@@ -254,6 +258,7 @@ func redistributeCase(name string, oldAC accessstructures.Monotone, prev []ID, n
 			if err != nil {
 				return nil, err
 			}
+			net.Root(id, r)
 			return r.Run(ctx, rt, nil)
 		})
 		return classify(res, info, func(id ID, sh *K256Shard) (string, string) {
@@ -295,6 +300,7 @@ func Lindell22Case(name string, ac accessstructures.Monotone, quorum []ID, messa
 			if err != nil {
 				return nil, err
 			}
+			net.Root(id, r)
 			return r.Run(ctx, rt, nil)
 		})
 		e := classify(res, info, func(id ID, p psig) (string, string) {
